@@ -120,6 +120,8 @@ type Exec struct {
 	timerDur          []*term.Term
 	timeAdvanced      int
 	clockNS           int64
+	inGo              int
+	parked            map[*Cell][]parkedGo
 }
 
 func (x *Exec) unsupported(format string, a ...interface{}) {
@@ -451,6 +453,42 @@ type cutSpec struct {
 }
 
 type cutBack struct{ vals []Value }
+
+// parkedGo is a sequentialised goroutine waiting for a mutex.
+type parkedGo struct {
+	fn   Value
+	args []Value
+	call *ssa.CallCommon
+}
+
+type blockedOnLock struct {
+	mu    *Cell
+	steps int64
+}
+
+// runGoroutine runs a goroutine body to completion, or parks it if it blocks on a held mutex before doing
+// anything else (only the call chain down to Lock may have run: bounded by a small step budget, else unsupported).
+func (x *Exec) runGoroutine(g parkedGo) {
+	x.inGo++
+	start := x.steps
+	defer func() {
+		x.inGo--
+		if r := recover(); r != nil {
+			if b, ok := r.(blockedOnLock); ok {
+				if b.steps-start > 64 {
+					x.unsupported("goroutine blocks on a mutex after %d steps (only goroutines that block first are modelled)", b.steps-start)
+				}
+				if x.parked == nil {
+					x.parked = map[*Cell][]parkedGo{}
+				}
+				x.parked[b.mu] = append(x.parked[b.mu], g)
+				return
+			}
+			panic(r)
+		}
+	}()
+	x.callValue(g.fn, g.args, g.call)
+}
 
 type frame struct {
 	cut      *cutSpec
